@@ -39,17 +39,18 @@ CLAIMED = {
     note="Buffer-level independence (capacity, stale words, in-place word movement in the dec methods) is exercised, not proved.",
     technique="Coq proof of receiver independence on value-level model + exhaustive aliasing-shape correspondence"),
  "C05": dict(
-    category="other",
-    text="Sqrt: the full Newton algorithm of decimal_sqrt.go (float64 seed, precision schedule, final multiplication) is an executable "
-         "Coq model. Closed theorems (Props/C05.v): Sqrt(+-0)=+-0, Sqrt(+Inf)=+Inf, Sqrt(x<0) is ErrNaN for every receiver and aliasing; "
-         "precision and mode of the receiver are unchanged by Sqrt for EVERY input; and C05_sqrt_correct_refuted: the correct-rounding clause "
-         "is FALSE of the faithful model (witness by vm_compute, replayed on the implementation = known finding K1). Because the clause "
-         "is false no universal theorem exists; it is decided per input by an integer-squares decider (r rounded correctly iff "
-         "neighbouring squares bracket x) applied to the implementation's outputs, every deviation classified as the K1 shape "
-         "(exactly the adjacent neighbour) or reported as VIOLATION; model and code are tied by correspondence: " + CORR + ".",
-    design_ref="DESIGN.md section 6 C05",
-    note="Assumes float64 sqrt/mul/div are IEEE on the host (seed of the iteration). K1 reported as KNOWN-FINDING.",
-    technique="Coq executable model with refutation theorem + per-input exact decider + model/code correspondence"),
+    category="proof",
+    text="Coq theorems (Props/C05.v, closed under the global context) on the model of the repaired Sqrt (fix c25a621; formerly known "
+         "finding K1): Sqrt(+-0)=+-0, Sqrt(+Inf)=+Inf, negative operands raise ErrNaN for every receiver and aliasing; precision and "
+         "mode of the receiver are unchanged; sqrtRound_correct: for ANY approximation on the working grid the correction loops and "
+         "the final rounding return the square root of x rounded ONCE to p digits under the mode, with truthful accuracy (specified "
+         "over Q through squares, no real numbers), whenever they return; lifted to Sqrt under the sole hypothesis that the Newton "
+         "stage returned a canonical positive finite value below 10 (nothing about its accuracy). Loop fuel exhaustion is excluded "
+         "by 'returns'. Tie to decimal_sqrt.go by correspondence: " + CORR + " (integer-square decider: any result other than the "
+         "correctly rounded root is a VIOLATION).",
+    design_ref="DESIGN.md sections 6 C05 and 11.3 (F20)",
+    note="Sqrt_correct is named _partial: the Newton stage's canonicity (ApproxOK) is a hypothesis; float64 sqrt/div assumed IEEE (seed only).",
+    technique="Coq proof of the correction step (result verified by exact squares) + model/code correspondence with integer-square oracle"),
  "C15": dict(
     category="other",
     text="Binary float conversions: Coq model of IEEE binary formats (L3/Bin.v), math/big.Float arithmetic as used (L3/Float.v) and "
